@@ -43,8 +43,15 @@ def call_blocks(body, *suffixes, cleanup=False):
     return out
 
 
-def inl(crate, body, **kw):
-    return inline(crate, body, local_picker(crate, **kw))
+def inl(crate, body, thread=True, **kw):
+    ib = inline(crate, body, local_picker(crate, **kw))
+    if thread:
+        from ..thread import thread_jumps
+        try:
+            ib = thread_jumps(ib)
+        except RecursionError:
+            pass
+    return ib
 
 
 def strip_load(t):
@@ -509,3 +516,22 @@ def client_field(cad, role, adt='cadence::client::StatsdClient'):
         if role == 'container_id' and ty == 'core::option::Option<alloc::string::String>':
             return f['name']
     return None
+
+
+VIEW_CALLS = ('::as_deref', '::as_str', '::as_ref', '::as_slice', '::iter', 'IntoIterator>::into_iter', 'Deref>::deref', '::as_mut',
+              '::borrow', '::as_bytes')
+
+
+def strip_views(t):
+    """peel references and order/identity preserving view calls: `x.as_deref()`, `&x`, `x.iter()`, `x.as_str()` ..."""
+    while True:
+        t = peel(t)
+        if t[0] == 'call' and isinstance(t[1], str) and len(t[2]) == 1 and any(t[1].endswith(s) for s in VIEW_CALLS):
+            t = t[2][0]
+            continue
+        if t[0] == 'load':
+            t = t[1]
+            continue
+        return t
+
+
